@@ -49,7 +49,7 @@ var vcAlts = []string{
 // held by the target for the same duty and validator would complete a threshold if the altered one were stored.
 var primable = map[string]bool{
 	"control": true, "sig-by-other-share": true, "other-share-index": true, "other-validator-key": true,
-	"sig-by-other-validator": true, "sig-by-group-key": true, "wrong-domain-type": true, "wrong-fork-version": true,
+	"sig-by-other-validator": true, "sig-by-group-key": true, "wrong-domain-type": true, "wrong-fork-version": true, "epoch-field-in-other-fork": true,
 	"wrong-gvr": true, "share-index-0": true, "share-index-n+1": true, "share-index-huge": true,
 	"share-index-negative": true, "zero-signature": true, "sig-only-in-proto-field": true, "garbage-signature": true, "infinity-signature": true,
 }
@@ -72,6 +72,12 @@ func (e *env) enumerate() []caseDef {
 		}
 		for i, f := range sample.fields {
 			out = append(out, caseDef{"peer", ts, "flip:" + f.name, i})
+		}
+		if sample.setEpoch != nil {
+			out = append(out, caseDef{"peer", ts, "epoch-field-in-other-fork", -1})
+			if sample.submit != nil {
+				out = append(out, caseDef{"vc", ts, "epoch-field-in-other-fork", -1})
+			}
 		}
 		if sample.submit == nil {
 			continue
@@ -174,6 +180,27 @@ func (e *env) runCase(cd caseDef) {
 	}
 	in := ts.mk(e, params{v: A, slot: slot, salt: e.salt})
 	e.used[in.duty] = true
+	// "epoch-field-in-other-fork": the object's own epoch field (which the spec takes the signing domain
+	// from) lies across a fork boundary from the duty's slot, and the signer used the fork version of the
+	// SLOT's epoch. By the spec that signature is invalid for this object.
+	var slotVer eth2p0.Version
+	if cd.alt == "epoch-field-in-other-fork" {
+		slotEp := e.epochOf(eth2p0.Slot(slot))
+		slotVer = e.versionAt(slotEp)
+		var cands []eth2p0.Epoch
+		for _, f := range e.forks {
+			if f.Epoch > slotEp && len(cands) == 0 {
+				cands = append(cands, f.Epoch) // the next fork's activation epoch
+			}
+		}
+		for ep := slotEp; ep > 0; ep-- {
+			if e.versionAt(ep-1) != slotVer {
+				cands = append(cands, ep-1) // the last epoch of the previous fork
+				break
+			}
+		}
+		in.setEpoch(cands[verifrt.Intn("w", len(cands))])
+	}
 	duty := in.duty
 	dom := ts.domain
 	ver, gvr := e.correct(ts, in)
@@ -220,6 +247,8 @@ func (e *env) runCase(cd caseDef) {
 			}
 		}
 		sver = vs[verifrt.Intn("w", len(vs))]
+	case "epoch-field-in-other-fork":
+		sver = slotVer
 	case "wrong-gvr":
 		if ts.genesis {
 			sgvr = cl.Chain.GenesisValidatorsRoot // the builder domain uses the zero root
